@@ -239,7 +239,21 @@ def one_argparse(ctx, ir, i):
             s = "zq_flag{0} = None\n".format(100 + i * 3 + j) + s
         extras += ast.parse(s).body
     has_ret = isinstance(fd.body[-1], ast.Return)
-    fd.body = fd.body[:-1] + extras + fd.body[-1:] if has_ret else fd.body + extras
+    layout = ("after_interface", "interleaved", "before_description")[(i // 3) % 3]
+    if layout == "after_interface":
+        fd.body = fd.body[:-1] + extras + fd.body[-1:] if has_ret else fd.body + extras
+    else:
+        # hand-written layouts: statements between the add_argument calls / before the description
+        first = 1 if (fd.body and isinstance(fd.body[0], ast.Expr) and isinstance(getattr(fd.body[0], "value", None), ast.Constant)) else 0
+        last = len(fd.body) - (1 if has_ret else 0)
+        body = list(fd.body)
+        for e in reversed(extras):
+            at = first if layout == "before_description" else ctx.rng.randint(first, last)
+            body.insert(at, e)
+            last += 1
+        fd.body = body
+    base["extras_layout"] = layout
+    ctx.feature("argparse_extras=" + layout)
     src2 = ast.unparse(ast.fix_missing_locations(fd))
     argparse_from_src(ctx, src2, base, len(ir["params"]))
 
